@@ -111,11 +111,18 @@ pub fn c04(run: &Run) -> (u64, u64) {
 /// C08 on the optimised build: every printed info line of every root, replayed on the reference model.
 pub fn c08(run: &Run) -> (u64, u64) {
     let Some(bin) = need_bin(run) else { return (0, 0) };
-    let roots = crate::searchchk::tactical_roots();
-    let maxd = if run.quick() { 7 } else { 10 };
+    let maxd0 = if run.quick() { 7 } else { 10 };
+    let mut roots: Vec<(GameSpec, u32)> = crate::searchchk::tactical_roots().into_iter().map(|g| (g, maxd0)).collect();
+    // tiny trees searched to the largest depth limit the protocol can express here (every iteration completes)
+    for f in ["4k3/8/8/p1p1p1p1/P1P1P1P1/8/8/4K3 w - - 0 1", "8/8/8/3k4/8/3K4/8/8 w - - 0 1"] {
+        for d in [254u32, 255] {
+            roots.push((GameSpec::fen(f), d));
+        }
+    }
     let n = AtomicU64::new(0);
     par_for(roots.len(), |i| {
-        let g = &roots[i];
+        let (g, maxd) = &roots[i];
+        let maxd = *maxd;
         let (_, root) = g.build().unwrap();
         let lines = vec!["setoption name Hash value 1".to_string(), position_line(g), format!("go depth {maxd}")];
         let Ok(mut e) = Engine::start(&bin) else { return };
@@ -174,7 +181,7 @@ pub fn c08(run: &Run) -> (u64, u64) {
         }
     });
     let a = n.load(Ordering::Relaxed);
-    run.family("E7-PRINTED-LINES", &format!("{} roots x go depth {maxd} on the optimised binary: every printed info line replayed on the reference model", roots.len()), roots.len() as u64, a, true, "");
+    run.family("E7-PRINTED-LINES", &format!("{} roots x go depth {maxd0} (two tiny-tree roots: depth 254 and 255) on the optimised binary: every printed info line replayed on the reference model", roots.len()), roots.len() as u64, a, true, "");
     *run.traces_validated.lock().unwrap() += a;
     (roots.len() as u64, a)
 }
